@@ -246,6 +246,9 @@ FLUENT_TYPES = {
     "real": ["real", None, None],
     "breal": ["real", "0", "4"],
     "fbreal": ["real", "1/2", "5/2"],
+    "ubint": ["int", None, 3],      # bounded on one side only
+    "lbint": ["int", 1, None],
+    "ubreal": ["real", None, "5/2"],
 }
 
 
